@@ -5,6 +5,9 @@ records and validated by TLC against a Trace_* module that judges every record i
 the failing ones in the verdict clause as "pos:op:why;..." (see spec/prim/Trace_BitVec.tla).
 """
 import json
+import os
+import sys
+import time
 
 from common import MachineryError, validate_traces
 
@@ -74,3 +77,22 @@ def validate_calls(trace_module, records, *, group=100, consts="", name=None, ti
 def key_of(spec):
     """canonical key of a call (operation + arguments) for distinct counting"""
     return json.dumps({k: v for k, v in spec.items() if k not in ("out", "res")}, sort_keys=True)
+
+
+def retry(fn, *args, attempts=2, **kw):
+    """Run a TLC step again when the JVM died without a result (seen under memory pressure when many checks run at
+    once); a genuine specification error fails every attempt and is raised unchanged."""
+    for k in range(attempts):
+        try:
+            return fn(*args, **kw)
+        except MachineryError as ex:
+            if k + 1 == attempts:
+                raise
+            print("machinery: %s failed (%s); retrying" % (getattr(fn, "__name__", "step"), str(ex).splitlines()[0][:120]), file=sys.stderr)
+            time.sleep(3)
+
+
+def limit_jvm(heap="2g"):
+    """Cap the heap of every JVM this check starts (TLC otherwise takes up to a quarter of the machine per JVM and
+    16 trace-validation shards run at once).  Honoured through JAVA_TOOL_OPTIONS; an explicit setting wins."""
+    os.environ.setdefault("JAVA_TOOL_OPTIONS", "-Xmx" + heap)
